@@ -66,11 +66,36 @@ fn canon_case(ctx: &mut Ctx, rng: &mut Rng) {
     // a third of the cases compute only the window -1..=1 around degree 0 (what an s-invariant needs), with
     // set_h_range called before or after the crossings are absorbed
     let window: Option<bool> = if rng.chance(1, 3) { Some(rng.chance(1, 2)) } else { None };
-    let conf = json!({"origin": origin, "h": h, "reduced": reduced, "explicit_base_point": base, "window_-1..=1_set_after_processing": window});
+    // a quarter of the plain cases go through the public builder with an explicit crossing order and with automatic
+    // delooping / elimination switched off (the tracked cycles are then carried through `finalize`, and through a
+    // deferred `eliminate_all` half of the time); without delooping or elimination the complex is the full cube, so n <= 7
+    let sched: Option<(Vec<usize>, bool, bool, bool)> = if base.is_none() && window.is_none() && rng.chance(1, 4) {
+        let mut order: Vec<usize> = (0..pd.n()).collect();
+        for i in (1..order.len()).rev() { let j = rng.below(i + 1); order.swap(i, j) }
+        let small = pd.n() <= 7;
+        let auto_elim = !small || rng.chance(1, 2);
+        let auto_deloop = !small || rng.chance(1, 2);
+        Some((order, auto_deloop, auto_elim, !(auto_elim && auto_deloop) && rng.chance(1, 2)))
+    } else { None };
+    let conf = json!({"origin": origin, "h": h, "reduced": reduced, "explicit_base_point": base, "window_-1..=1_set_after_processing": window,
+        "schedule(order,auto_deloop,auto_elim,eliminate_all_at_end)": sched});
     let wit = |extra: serde_json::Value| json!({"config": conf, "pd": pd.x, "detail": extra});
     let l = to_link(&pd);
+    let sched2 = sched.clone();
     let res = guarded(move || {
         let c = match (base, window) {
+            (None, None) if sched2.is_some() => {
+                let (order, ad, ae, late) = sched2.clone().unwrap();
+                let bp = if reduced { l.first_edge() } else { None };
+                let mut b = yui_kh::kh::internal::v2::builder::TngComplexBuilder::<i64>::new(&l, &h, &0, bp);
+                b.auto_deloop = ad; b.auto_elim = ae;
+                let xs = l.data().clone();
+                b.set_crossings(vec![]);
+                for &k in &order { b.set_crossings([xs[k].clone()]); b.process_all(); }
+                b.finalize();
+                if late { b.eliminate_all() }
+                b.into_kh_complex()
+            }
             (None, None) => KhComplex::<i64>::new(&l, &h, &0, reduced),
             (b0, w) => {
                 let bp = b0.or(if reduced { l.first_edge() } else { None });
@@ -124,7 +149,8 @@ fn canon_case(ctx: &mut Ctx, rng: &mut Rng) {
             if r1 != r0 + 1 { ctx.violation("C06/canon/torsion-class", &format!("for h = {h} the class of canonical cycle {k} is torsion (a multiple is a boundary)"), wit(json!(null))); return }
         }
     }
-    ctx.ok("canonical-cycles", pd.n() >= 3, hash_of(&(&pd.x, h, reduced)));
+    if sched.is_some() { ctx.count("canonical_cycles_through_explicit_schedules", 1) }
+    ctx.ok("canonical-cycles", pd.n() >= 3, hash_of(&(&pd.x, h, reduced, &sched)));
     if ctx.want_sample("canonical-cycles") { ctx.sample("canonical-cycles", conf.clone()) }
 }
 
